@@ -327,14 +327,29 @@ def multinomialState (probs : List α) (r : α) : Nat :=
   | some j => j
   | none => probs.length
 
-/-- `randMultinomial(n, probs)`: the `n` states; `draws` = the uniform draws -/
-def randMultinomial (probs : List α) : Nat → List α → R (List Nat)
+/-- the loop of `randMultinomial(n, probs)`: the `n` states; `draws` = the uniform draws -/
+def multinomialLoop (probs : List α) : Nat → List α → R (List Nat)
   | 0, _ => .ok []
   | _ + 1, [] => .error .starved
   | n + 1, r :: rs =>
-    match randMultinomial probs n rs with
+    match multinomialLoop probs n rs with
     | .error e => .error e
     | .ok l => .ok (multinomialState probs r :: l)
+
+/-- the guard `if (n > 0 && !(s > 0)) throw Exception(…)` (RandomTools.cpp:16-17, added by the
+`fix:` recorded in findings/C18.json: without a positive sum the probabilities cannot be scaled,
+every comparison `r <= cumprob` is false (0/0) and the code answered the out-of-range state
+`probs.size()` although the documentation promises `0 … x-1`) -/
+def multinomialRaises (probs : List α) (n : Nat) : Bool :=
+  n != 0 && !(Scalar.ltb (Scalar.ofInt 0) (sumFromZero probs))
+
+/-- `randMultinomial(n, probs)` (repaired) -/
+def randMultinomial (probs : List α) (n : Nat) (draws : List α) : R (List Nat) :=
+  if multinomialRaises probs n then .error .bpp else multinomialLoop probs n draws
+
+/-- … before the repair: the loop alone -/
+def randMultinomialUnrepaired (probs : List α) (n : Nat) (draws : List α) : R (List Nat) :=
+  multinomialLoop probs n draws
 
 /-- the running sums `cumprob` of `randMultinomial`: `cumprob += probs[j] / s` from 0 -/
 def multinomialCums (probs : List α) : List α :=
